@@ -1,9 +1,24 @@
 package main
 
+// Replay of solver counterexamples against the real code: the model's input values are turned into
+// an in-package Go test (injected with `go test -overlay`, nothing is written into /repo), the real
+// function is run, and the contract is re-evaluated on the observed outputs.
+
 import (
+	"bytes"
+	"context"
 	"encoding/json"
+	"fmt"
+	"go/types"
+	"math/big"
 	"os"
+	"os/exec"
 	"path/filepath"
+	"regexp"
+	"sort"
+	"strconv"
+	"strings"
+	"time"
 )
 
 type ReplayResult struct {
@@ -12,40 +27,639 @@ type ReplayResult struct {
 }
 
 type ReplayFile struct {
-	Property   string            `json:"property"`
-	Obligation string            `json:"obligation"`
-	Kind       string            `json:"kind"`
-	Where      string            `json:"where"`
-	Function   string            `json:"function"`
-	Status     string            `json:"solver_status"`
-	Solver     string            `json:"solver"`
-	Output     string            `json:"solver_output"`
-	Inputs     map[string]string `json:"inputs,omitempty"`
-	GoTest     string            `json:"go_test,omitempty"`
-	Observed   string            `json:"observed,omitempty"`
-	Confirmed  bool              `json:"confirmed_on_real_code"`
-	Goal       string            `json:"goal"`
+	Property   string                 `json:"property"`
+	Obligation string                 `json:"obligation"`
+	Kind       string                 `json:"kind"`
+	Where      string                 `json:"where"`
+	Function   string                 `json:"function"`
+	Status     string                 `json:"solver_status"`
+	Solver     string                 `json:"solver"`
+	Output     string                 `json:"solver_output"`
+	Inputs     map[string]interface{} `json:"inputs,omitempty"`
+	GoTest     string                 `json:"go_test,omitempty"`
+	Observed   map[string]interface{} `json:"observed,omitempty"`
+	Verdict    string                 `json:"verdict"`
+	Confirmed  bool                   `json:"confirmed_on_real_code"`
+	Goal       string                 `json:"goal"`
+	PkgDir     string                 `json:"package_dir,omitempty"`
 }
 
 func tryReplay(u *Universe, prop string, o *Obl, opt *Options, dir string) ReplayResult {
 	rf := &ReplayFile{Property: prop, Obligation: o.Name, Kind: o.Kind, Where: o.Where, Function: o.Func, Status: o.Status,
 		Solver: o.Solver, Output: truncate(o.Model, 4000), Goal: truncate(o.Goal.String(), 2000)}
 	path := filepath.Join(dir, fileSafe.ReplaceAllString(o.Name, "_")+".json")
+	rf.Verdict = "no-failing-input-found: the solver gave no model (" + o.Status + ")"
 	if o.Status == "sat" {
-		concretize(u, o, rf, opt)
+		func() {
+			defer func() {
+				if r := recover(); r != nil {
+					rf.Verdict = fmt.Sprintf("no-failing-input-found: replay not possible: %v", r)
+				}
+			}()
+			concretize(u, o, rf, opt)
+		}()
 	}
 	data, _ := json.MarshalIndent(rf, "", " ")
 	os.WriteFile(path, data, 0o644)
 	return ReplayResult{Path: path, Confirmed: rf.Confirmed}
 }
 
-func concretize(u *Universe, o *Obl, rf *ReplayFile, opt *Options) {}
+var valRe = regexp.MustCompile(`\(\s*(\|[^|]*\||\(select [^)]*\)|[^\s()]+)\s+(\(-\s*\d+\)|#x[0-9a-fA-F]+|#b[01]+|-?\d+|true|false)\s*\)`)
+
+func parseSMTValue(s string) (*big.Int, bool) {
+	s = strings.TrimSpace(s)
+	switch {
+	case s == "true":
+		return big.NewInt(1), true
+	case s == "false":
+		return big.NewInt(0), true
+	case strings.HasPrefix(s, "#x"):
+		v, ok := new(big.Int).SetString(s[2:], 16)
+		return v, ok
+	case strings.HasPrefix(s, "#b"):
+		v, ok := new(big.Int).SetString(s[2:], 2)
+		return v, ok
+	case strings.HasPrefix(s, "(-"):
+		t := strings.TrimSpace(strings.Trim(s, "()-"))
+		v, ok := new(big.Int).SetString(strings.TrimSpace(t), 10)
+		if ok {
+			v.Neg(v)
+		}
+		return v, ok
+	}
+	v, ok := new(big.Int).SetString(s, 10)
+	return v, ok
+}
+
+// getValues runs a solver on the obligation plus extra assertions and returns the values of terms.
+func getValues(o *Obl, extra []string, terms []string, scratch string) (map[string]*big.Int, bool) {
+	if len(terms) == 0 {
+		return map[string]*big.Int{}, true
+	}
+	saved := o.ExtraAsserts
+	o.ExtraAsserts = extra
+	txt := o.smt(terms)
+	o.ExtraAsserts = saved
+	fn := filepath.Join(scratch, "model.smt2")
+	os.WriteFile(fn, []byte(txt), 0o644)
+	order := []solverSpec{solvers[0], solvers[1], solvers[2]}
+	for i, sp := range solvers {
+		if sp.name == o.Solver {
+			order = append([]solverSpec{solvers[i]}, append(append([]solverSpec{}, solvers[:i]...), solvers[i+1:]...)...)
+		}
+	}
+	for _, sp := range order {
+		r := runSolver(context.Background(), sp, fn, 30)
+		if r.status != "sat" {
+			continue
+		}
+		res := map[string]*big.Int{}
+		body := r.out[strings.Index(r.out, "sat")+3:]
+		for _, m := range valRe.FindAllStringSubmatch(body, -1) {
+			if v, ok := parseSMTValue(m[2]); ok {
+				res[strings.TrimSpace(m[1])] = v
+			}
+		}
+		return res, true
+	}
+	return nil, false
+}
+
+type concreteInput struct {
+	ib    InputBinding
+	val   *big.Int
+	elems []*big.Int
+}
+
+func concretize(u *Universe, o *Obl, rf *ReplayFile, opt *Options) {
+	var c *Contract
+	for _, cc := range u.Contracts {
+		if shortPkg(cc.PkgPath)+"."+cc.Key == o.Func {
+			c = cc
+		}
+	}
+	if c == nil {
+		rf.Verdict = "no-failing-input-found: obligation does not belong to a function (lemma)"
+		return
+	}
+	pkg := u.Pkgs[c.PkgPath]
+	_, obj := findFunc(pkg, c.Key)
+	sig := obj.Type().(*types.Signature)
+	if sig.Recv() != nil {
+		rf.Verdict = "no-failing-input-found: replay of methods is not supported (receiver state is symbolic)"
+		return
+	}
+	scratch, _ := os.MkdirTemp("", "govc-replay-")
+	defer os.RemoveAll(scratch)
+	// phase 1: scalars and lengths
+	var terms []string
+	for _, ib := range o.Inputs {
+		switch ib.Kind {
+		case "scalar", "scalarbv", "bool":
+			terms = append(terms, sanitize(ib.Sym["val"]))
+		case "slice", "string", "slicebv", "stringbv":
+			terms = append(terms, sanitize(ib.Sym["len"]))
+		case "array", "arraybv", "ptrarray", "ptrarraybv":
+		default:
+			rf.Verdict = "no-failing-input-found: parameter " + ib.Name + " of type " + ib.Typ + " cannot be concretised"
+			return
+		}
+	}
+	vals, ok := getValues(o, nil, terms, scratch)
+	if !ok {
+		rf.Verdict = "no-failing-input-found: could not re-obtain a model"
+		return
+	}
+	// phase 2: elements
+	var extra []string
+	var terms2 []string
+	for _, t := range terms {
+		if v, ok := vals[t]; ok {
+			if strings.Contains(t, ".len") {
+				extra = append(extra, fmt.Sprintf("(= %s %s)", t, smtInt(v)))
+			}
+		}
+	}
+	var cins []concreteInput
+	for _, ib := range o.Inputs {
+		ci := concreteInput{ib: ib}
+		switch ib.Kind {
+		case "scalar", "scalarbv", "bool":
+			ci.val = vals[sanitize(ib.Sym["val"])]
+			if ci.val == nil {
+				ci.val = big.NewInt(0)
+			}
+		case "slice", "string", "slicebv", "stringbv":
+			ci.val = vals[sanitize(ib.Sym["len"])]
+			if ci.val == nil {
+				ci.val = big.NewInt(0)
+			}
+			if ci.val.Cmp(big.NewInt(1<<16)) > 0 {
+				rf.Verdict = fmt.Sprintf("no-failing-input-found: model needs a %s-element input for %s (skipped)", ci.val, ib.Name)
+				return
+			}
+			for i := int64(0); i < ci.val.Int64(); i++ {
+				terms2 = append(terms2, fmt.Sprintf("(select %s %d)", sanitize(ib.Sym["arr"]), i))
+			}
+		case "array", "arraybv", "ptrarray", "ptrarraybv":
+			n, _ := strconv.Atoi(ib.Sym["n"])
+			ci.val = big.NewInt(int64(n))
+			for i := 0; i < n; i++ {
+				terms2 = append(terms2, fmt.Sprintf("(select %s %d)", sanitize(ib.Sym["arr"]), i))
+			}
+		}
+		cins = append(cins, ci)
+	}
+	vals2, ok := getValues(o, extra, terms2, scratch)
+	if !ok {
+		rf.Verdict = "no-failing-input-found: could not re-obtain a model with fixed lengths"
+		return
+	}
+	for i := range cins {
+		ci := &cins[i]
+		switch ci.ib.Kind {
+		case "slice", "string", "slicebv", "stringbv", "array", "arraybv", "ptrarray", "ptrarraybv":
+			for k := int64(0); k < ci.val.Int64(); k++ {
+				v := vals2[fmt.Sprintf("(select %s %d)", sanitize(ci.ib.Sym["arr"]), k)]
+				if v == nil {
+					v = big.NewInt(0)
+				}
+				ci.elems = append(ci.elems, v)
+			}
+		}
+	}
+	runConcrete(u, c, cins, rf, opt, scratch)
+}
+
+// goLiteral renders a concrete input as a Go expression of the parameter's type.
+func goLiteral(t types.Type, ci concreteInput, qual types.Qualifier) (string, bool) {
+	ts := types.TypeString(t, qual)
+	elemLit := func(et types.Type, v *big.Int) string {
+		ii, ok := intInfoOf(et)
+		if !ok {
+			return v.String()
+		}
+		x := new(big.Int).Mod(v, pow2(ii.W))
+		if ii.Signed {
+			x = toSigned(x, ii.W)
+		}
+		return x.String()
+	}
+	switch u := t.Underlying().(type) {
+	case *types.Basic:
+		if u.Info()&types.IsString != 0 {
+			var b []byte
+			for _, e := range ci.elems {
+				b = append(b, byte(e.Int64()))
+			}
+			return fmt.Sprintf("%s(%s)", ts, strconv.Quote(string(b))), true
+		}
+		if u.Info()&types.IsBoolean != 0 {
+			return fmt.Sprintf("%s(%v)", ts, ci.val.Sign() != 0), true
+		}
+		if u.Info()&types.IsInteger != 0 {
+			return fmt.Sprintf("%s(%s)", ts, elemLit(t, ci.val)), true
+		}
+	case *types.Slice:
+		var parts []string
+		for _, e := range ci.elems {
+			parts = append(parts, elemLit(u.Elem(), e))
+		}
+		return fmt.Sprintf("%s{%s}", ts, strings.Join(parts, ", ")), true
+	case *types.Array:
+		var parts []string
+		for _, e := range ci.elems {
+			parts = append(parts, elemLit(u.Elem(), e))
+		}
+		return fmt.Sprintf("%s{%s}", ts, strings.Join(parts, ", ")), true
+	case *types.Pointer:
+		if a, ok := u.Elem().Underlying().(*types.Array); ok {
+			var parts []string
+			for _, e := range ci.elems {
+				parts = append(parts, elemLit(a.Elem(), e))
+			}
+			return fmt.Sprintf("&%s{%s}", types.TypeString(u.Elem(), qual), strings.Join(parts, ", ")), true
+		}
+	}
+	return "", false
+}
+
+type observed struct {
+	Panic   string                   `json:"panic"`
+	Results []map[string]interface{} `json:"results"`
+	Params  []map[string]interface{} `json:"params"`
+}
+
+func runConcrete(u *Universe, c *Contract, cins []concreteInput, rf *ReplayFile, opt *Options, scratch string) {
+	pkg := u.Pkgs[c.PkgPath]
+	_, obj := findFunc(pkg, c.Key)
+	sig := obj.Type().(*types.Signature)
+	imports := map[string]string{} // path -> name
+	qual := func(p *types.Package) string {
+		if p == pkg.Types {
+			return ""
+		}
+		imports[p.Path()] = p.Name()
+		return p.Name()
+	}
+	var args []string
+	var decls []string
+	rf.Inputs = map[string]interface{}{}
+	for i, ci := range cins {
+		t := sig.Params().At(i).Type()
+		lit, ok := goLiteral(t, ci, qual)
+		if !ok {
+			rf.Verdict = "no-failing-input-found: cannot build a Go literal of type " + t.String()
+			return
+		}
+		decls = append(decls, fmt.Sprintf("\tp%d := %s", i, lit))
+		args = append(args, fmt.Sprintf("p%d", i))
+		rf.Inputs[ci.ib.Name] = lit
+	}
+	// sentinel errors of this package, for errors.Is classification
+	var sentinels []string
+	for _, name := range pkg.Types.Scope().Names() {
+		if v, ok := pkg.Types.Scope().Lookup(name).(*types.Var); ok && isErrorType(v.Type()) {
+			sentinels = append(sentinels, name)
+		}
+	}
+	sort.Strings(sentinels)
+	var sb strings.Builder
+	fmt.Fprintf(&sb, "package %s\n\nimport (\n\t\"encoding/json\"\n\t\"errors\"\n\t\"fmt\"\n\t\"os\"\n\t\"reflect\"\n\t\"testing\"\n", pkg.Types.Name())
+	body := &strings.Builder{}
+	fmt.Fprintf(body, "func TestGovcReplay(t *testing.T) {\n")
+	fmt.Fprintf(body, "\tout := map[string]interface{}{}\n")
+	fmt.Fprintf(body, "\tdefer func() {\n\t\tif r := recover(); r != nil {\n\t\t\tout[\"panic\"] = fmt.Sprint(r)\n\t\t}\n\t\tb, _ := json.Marshal(out)\n\t\tfmt.Fprintf(os.Stdout, \"\\nGOVC-REPLAY %%s\\n\", b)\n\t}()\n")
+	fmt.Fprintf(body, "%s\n", strings.Join(decls, "\n"))
+	nres := sig.Results().Len()
+	var rnames []string
+	for i := 0; i < nres; i++ {
+		rnames = append(rnames, fmt.Sprintf("r%d", i))
+	}
+	call := fmt.Sprintf("%s(%s)", obj.Name(), strings.Join(args, ", "))
+	if nres > 0 {
+		fmt.Fprintf(body, "\t%s := %s\n", strings.Join(rnames, ", "), call)
+	} else {
+		fmt.Fprintf(body, "\t%s\n", call)
+	}
+	fmt.Fprintf(body, "\tenc := func(v interface{}) interface{} {\n\t\tif e, ok := v.(error); ok {\n\t\t\tm := map[string]interface{}{\"error\": e.Error(), \"type\": fmt.Sprintf(\"%%T\", e)}\n")
+	for _, s := range sentinels {
+		fmt.Fprintf(body, "\t\t\tif errors.Is(e, %s) {\n\t\t\t\tm[\"is\"] = %q\n\t\t\t}\n", s, c.PkgPath+"."+s)
+	}
+	fmt.Fprintf(body, "\t\t\trv := reflect.ValueOf(e)\n\t\t\tif rv.Kind() == reflect.Ptr {\n\t\t\t\trv = rv.Elem()\n\t\t\t}\n\t\t\tif rv.Kind() == reflect.Struct {\n\t\t\t\tif f := rv.FieldByName(\"Offset\"); f.IsValid() && f.CanInt() {\n\t\t\t\t\tm[\"offset\"] = f.Int()\n\t\t\t\t}\n\t\t\t}\n\t\t\treturn m\n\t\t}\n")
+	fmt.Fprintf(body, "\t\trv := reflect.ValueOf(v)\n\t\tif !rv.IsValid() {\n\t\t\treturn nil\n\t\t}\n\t\tif rv.Kind() == reflect.Ptr && !rv.IsNil() {\n\t\t\trv = rv.Elem()\n\t\t}\n\t\tswitch rv.Kind() {\n\t\tcase reflect.Slice, reflect.Array:\n\t\t\tif rv.Kind() == reflect.Slice && rv.IsNil() {\n\t\t\t\treturn map[string]interface{}{\"nil\": true, \"elems\": []int64{}}\n\t\t\t}\n\t\t\tel := []int64{}\n\t\t\tfor i := 0; i < rv.Len(); i++ {\n\t\t\t\tx := rv.Index(i)\n\t\t\t\tif x.CanInt() {\n\t\t\t\t\tel = append(el, x.Int())\n\t\t\t\t} else if x.CanUint() {\n\t\t\t\t\tel = append(el, int64(x.Uint()))\n\t\t\t\t}\n\t\t\t}\n\t\t\treturn map[string]interface{}{\"nil\": false, \"elems\": el}\n\t\tcase reflect.String:\n\t\t\tel := []int64{}\n\t\t\tfor _, b := range []byte(rv.String()) {\n\t\t\t\tel = append(el, int64(b))\n\t\t\t}\n\t\t\treturn map[string]interface{}{\"nil\": false, \"elems\": el}\n\t\tcase reflect.Bool:\n\t\t\treturn rv.Bool()\n\t\t}\n\t\tif rv.CanInt() {\n\t\t\treturn fmt.Sprint(rv.Int())\n\t\t}\n\t\tif rv.CanUint() {\n\t\t\treturn fmt.Sprint(rv.Uint())\n\t\t}\n\t\treturn fmt.Sprint(v)\n\t}\n")
+	fmt.Fprintf(body, "\tvar res []interface{}\n")
+	for i := 0; i < nres; i++ {
+		if isErrorType(sig.Results().At(i).Type()) {
+			fmt.Fprintf(body, "\tif r%d == nil {\n\t\tres = append(res, map[string]interface{}{\"error\": nil})\n\t} else {\n\t\tres = append(res, enc(r%d))\n\t}\n", i, i)
+		} else {
+			fmt.Fprintf(body, "\tres = append(res, enc(r%d))\n", i)
+		}
+	}
+	fmt.Fprintf(body, "\tout[\"results\"] = res\n\tvar ps []interface{}\n")
+	for i := range cins {
+		fmt.Fprintf(body, "\tps = append(ps, enc(p%d))\n", i)
+	}
+	fmt.Fprintf(body, "\tout[\"params\"] = ps\n}\n")
+	var ips []string
+	for p := range imports {
+		ips = append(ips, p)
+	}
+	sort.Strings(ips)
+	for _, p := range ips {
+		fmt.Fprintf(&sb, "\t%s %q\n", imports[p], p)
+	}
+	sb.WriteString(")\n\nvar _ = errors.Is\nvar _ = reflect.ValueOf\n\n")
+	sb.WriteString(body.String())
+	rf.GoTest = sb.String()
+	// run it
+	pkgDir := filepath.Dir(u.Fset.Position(pkg.Syntax[0].Pos()).Filename)
+	rf.PkgDir = pkgDir
+	testFile := filepath.Join(scratch, "replay_test.go")
+	os.WriteFile(testFile, []byte(rf.GoTest), 0o644)
+	ov := map[string]map[string]string{"Replace": {filepath.Join(pkgDir, "zz_govc_replay_test.go"): testFile}}
+	ovb, _ := json.Marshal(ov)
+	ovFile := filepath.Join(scratch, "ov.json")
+	os.WriteFile(ovFile, ovb, 0o644)
+	ctx, cancel := context.WithTimeout(context.Background(), 180*time.Second)
+	defer cancel()
+	cmd := exec.CommandContext(ctx, "go", "test", "-overlay", ovFile, "-vet=off", "-count=1", "-timeout", "60s", "-run", "^TestGovcReplay$", "-v", ".")
+	cmd.Dir = pkgDir
+	cmd.Env = append(os.Environ(), "GOFLAGS=-mod=mod", "GOPROXY=off", "GOSUMDB=off", "GOTOOLCHAIN=local")
+	var buf bytes.Buffer
+	cmd.Stdout = &buf
+	cmd.Stderr = &buf
+	cmd.Run()
+	outTxt := buf.String()
+	idx := strings.Index(outTxt, "GOVC-REPLAY ")
+	if idx < 0 {
+		if strings.Contains(outTxt, "panic: test timed out") {
+			rf.Observed = map[string]interface{}{"hang": true}
+			rf.Verdict = "the real function did not return within 60 s on the model's input"
+			rf.Confirmed = true
+			return
+		}
+		rf.Verdict = "no-failing-input-found: replay test did not run: " + truncate(outTxt, 1500)
+		return
+	}
+	line := outTxt[idx+len("GOVC-REPLAY "):]
+	if j := strings.Index(line, "\n"); j >= 0 {
+		line = line[:j]
+	}
+	var obs map[string]interface{}
+	if err := json.Unmarshal([]byte(line), &obs); err != nil {
+		rf.Verdict = "no-failing-input-found: cannot parse replay output"
+		return
+	}
+	rf.Observed = obs
+	if p, ok := obs["panic"]; ok {
+		if len(c.PanicsWhen) == 0 {
+			rf.Verdict = fmt.Sprintf("the real function panics on the model's input: %v", p)
+			rf.Confirmed = true
+			return
+		}
+		rf.Verdict = fmt.Sprintf("no-failing-input-found: the function panicked (%v) and its contract allows some panics", p)
+		return
+	}
+	// re-evaluate every ensures clause on the observed values
+	failedClause, err := evalEnsuresConcrete(u, c, cins, obs, scratch)
+	if err != "" {
+		rf.Verdict = "no-failing-input-found: " + err
+		return
+	}
+	if failedClause != "" {
+		rf.Verdict = "on the model's input the real function returns values that falsify: ensures " + failedClause
+		rf.Confirmed = true
+		return
+	}
+	rf.Verdict = "no-failing-input-found: the real function satisfies its postconditions on the model's input (the failed obligation is an intermediate one)"
+}
+
+func toBig(v interface{}) *big.Int {
+	switch x := v.(type) {
+	case float64:
+		return big.NewInt(int64(x))
+	case string:
+		b, _ := new(big.Int).SetString(x, 10)
+		if b == nil {
+			return big.NewInt(0)
+		}
+		return b
+	case bool:
+		if x {
+			return big.NewInt(1)
+		}
+		return big.NewInt(0)
+	}
+	return big.NewInt(0)
+}
+
+// concreteValue builds a Value of Go type t from an observed JSON value.
+func (x *Exec) concreteValue(e *Env, t types.Type, v interface{}) Value {
+	mkElem := func(et types.Type, b *big.Int) *Term {
+		s := e.R().sortOf(et)
+		if s.K == KBV {
+			return BVC(b, s.W)
+		}
+		if s == BoolS {
+			return BoolC(b.Sign() != 0)
+		}
+		return IntB(b)
+	}
+	elems := func(m map[string]interface{}) []*big.Int {
+		var r []*big.Int
+		if l, ok := m["elems"].([]interface{}); ok {
+			for _, q := range l {
+				r = append(r, toBig(q))
+			}
+		}
+		return r
+	}
+	switch u := t.Underlying().(type) {
+	case *types.Basic:
+		if u.Info()&types.IsString != 0 {
+			m, _ := v.(map[string]interface{})
+			el := elems(m)
+			arr := ConstArr(e.zeroElem(byteT))
+			for i, b := range el {
+				arr = Store(arr, IntC(int64(i)), mkElem(byteT, b))
+			}
+			a := x.alloc()
+			e.st.mem[a] = ArrayV{T: arr, N: -1, Elem: byteT}
+			return SliceV{Alloc: a, Off: IntC(0), Len: IntC(int64(len(el))), Cap: IntC(int64(len(el))), Elem: byteT, IsString: true, Nil: FalseT, Typ: t}
+		}
+		return Scalar{mkElem(t, toBig(v)), t}
+	case *types.Slice:
+		m, _ := v.(map[string]interface{})
+		el := elems(m)
+		arr := ConstArr(e.zeroElem(u.Elem()))
+		for i, b := range el {
+			arr = Store(arr, IntC(int64(i)), mkElem(u.Elem(), b))
+		}
+		a := x.alloc()
+		e.st.mem[a] = ArrayV{T: arr, N: -1, Elem: u.Elem()}
+		isNil := false
+		if b, ok := m["nil"].(bool); ok {
+			isNil = b
+		}
+		return SliceV{Alloc: a, Off: IntC(0), Len: IntC(int64(len(el))), Cap: IntC(int64(len(el))), Elem: u.Elem(), Nil: BoolC(isNil), Typ: t}
+	case *types.Array:
+		m, _ := v.(map[string]interface{})
+		el := elems(m)
+		arr := ConstArr(e.zeroElem(u.Elem()))
+		for i, b := range el {
+			arr = Store(arr, IntC(int64(i)), mkElem(u.Elem(), b))
+		}
+		return ArrayV{T: arr, N: u.Len(), Elem: u.Elem(), Typ: t}
+	case *types.Pointer:
+		if a, ok := u.Elem().Underlying().(*types.Array); ok {
+			av := x.concreteValue(e, types.NewArray(a.Elem(), a.Len()), v)
+			al := x.alloc()
+			e.st.mem[al] = av
+			return PtrV{Alloc: al, Nil: FalseT, Typ: t}
+		}
+	case *types.Interface:
+		if isErrorType(t) {
+			m, _ := v.(map[string]interface{})
+			if m == nil || m["error"] == nil {
+				return ErrV{Nil: TrueT, Kind: IntC(0), Type: IntC(0), Off: IntC(0)}
+			}
+			kind := int64(1 << 40)
+			if s, ok := m["is"].(string); ok {
+				kind = int64(x.errKindID(s))
+			}
+			tn, _ := m["type"].(string)
+			off := int64(0)
+			if f, ok := m["offset"].(float64); ok {
+				off = int64(f)
+			}
+			return ErrV{Nil: FalseT, Kind: IntC(kind), Type: IntC(int64(x.errTypeID(tn))), Off: IntC(off)}
+		}
+	}
+	panic("cannot rebuild a value of type " + t.String())
+}
+
+func evalEnsuresConcrete(u *Universe, c *Contract, cins []concreteInput, obs map[string]interface{}, scratch string) (failed string, errMsg string) {
+	defer func() {
+		if r := recover(); r != nil {
+			errMsg = fmt.Sprintf("cannot evaluate the postconditions on concrete values: %v", r)
+		}
+	}()
+	pkg := u.Pkgs[c.PkgPath]
+	_, obj := findFunc(pkg, c.Key)
+	sig := obj.Type().(*types.Signature)
+	x := u.newExec(pkg, "replay", reprFrom(c.ReprBV))
+	x.C = c
+	x.frames = []*frame{{pkg: pkg, fn: nil, c: c, sig: sig, name: "replay"}}
+	pre := newState()
+	post := newState()
+	epre := &Env{x: x, st: pre, pkg: contractPkgView(pkg), contract: true}
+	epost := &Env{x: x, st: post, pkg: contractPkgView(pkg), contract: true}
+	names := map[string]Value{}
+	oldNames := map[string]Value{}
+	params, _ := obs["params"].([]interface{})
+	results, _ := obs["results"].([]interface{})
+	for i, ci := range cins {
+		t := sig.Params().At(i).Type()
+		// entry value from the model
+		var in interface{}
+		switch ci.ib.Kind {
+		case "scalar", "scalarbv", "bool":
+			in = ci.val.String()
+		default:
+			var el []interface{}
+			for _, b := range ci.elems {
+				el = append(el, b.String())
+			}
+			in = map[string]interface{}{"nil": false, "elems": el}
+		}
+		ov := x.concreteValue(epre, t, in)
+		oldNames[c.Params[i]] = ov
+		// post-state value of the same parameter (memory may have been written)
+		nv := ov
+		if i < len(params) {
+			switch t.Underlying().(type) {
+			case *types.Slice, *types.Pointer:
+				nv = x.concreteValue(epost, t, params[i])
+			default:
+				nv = x.concreteValue(epost, t, in)
+			}
+		}
+		names[c.Params[i]] = nv
+	}
+	for i := 0; i < sig.Results().Len() && i < len(results); i++ {
+		names[c.Results[i]] = x.concreteValue(epost, sig.Results().At(i).Type(), results[i])
+	}
+	names["#old"] = namesBox{oldNames}
+	ce := &Env{x: x, st: post, pkg: contractPkgView(pkg), names: names, contract: true, oldSt: pre}
+	for _, en := range c.Ensures {
+		ce.where = en.Line
+		t := ce.boolTerm(ce.expr(en.Expr))
+		if t.IsTrue() {
+			continue
+		}
+		if t.IsFalse() {
+			return en.Text, ""
+		}
+		// undecided by the simplifier: ask a solver about the ground formula
+		ob := &Obl{Name: "ground", PC: x.withGlobals(post.pc), Goal: t, Defs: "", DefNames: x.defOrder}
+		var defs strings.Builder
+		for _, n := range x.defOrder {
+			defs.WriteString(x.defs[n] + "\n")
+		}
+		ob.Defs = defs.String()
+		fn := filepath.Join(scratch, "ground.smt2")
+		os.WriteFile(fn, []byte(ob.smt(nil)), 0o644)
+		r := portfolio(fn, 20, false)
+		switch r.status {
+		case "unsat":
+			continue
+		case "sat":
+			return en.Text, ""
+		default:
+			return "", "ground postcondition undecided: " + en.Text
+		}
+	}
+	return "", ""
+}
 
 func runReplay(prop, file string, opt *Options) int {
 	data, err := os.ReadFile(file)
 	if err != nil {
+		fmt.Fprintln(os.Stderr, err)
 		return 2
 	}
-	os.Stdout.Write(data)
+	var rf ReplayFile
+	if err := json.Unmarshal(data, &rf); err != nil {
+		fmt.Fprintln(os.Stderr, err)
+		return 2
+	}
+	fmt.Printf("obligation %s (%s) at %s\nsolver: %s %s\nverdict: %s\n", rf.Obligation, rf.Kind, rf.Where, rf.Solver, rf.Status, rf.Verdict)
+	if rf.GoTest == "" || rf.PkgDir == "" {
+		fmt.Println("no concrete input recorded; solver output:")
+		fmt.Println(rf.Output)
+		if rf.Confirmed {
+			return 1
+		}
+		return 0
+	}
+	scratch, _ := os.MkdirTemp("", "govc-replay-")
+	defer os.RemoveAll(scratch)
+	testFile := filepath.Join(scratch, "replay_test.go")
+	os.WriteFile(testFile, []byte(rf.GoTest), 0o644)
+	ov := map[string]map[string]string{"Replace": {filepath.Join(rf.PkgDir, "zz_govc_replay_test.go"): testFile}}
+	ovb, _ := json.Marshal(ov)
+	ovFile := filepath.Join(scratch, "ov.json")
+	os.WriteFile(ovFile, ovb, 0o644)
+	cmd := exec.Command("go", "test", "-overlay", ovFile, "-vet=off", "-count=1", "-timeout", "60s", "-run", "^TestGovcReplay$", "-v", ".")
+	cmd.Dir = rf.PkgDir
+	cmd.Env = append(os.Environ(), "GOFLAGS=-mod=mod", "GOPROXY=off", "GOSUMDB=off", "GOTOOLCHAIN=local")
+	cmd.Stdout = os.Stdout
+	cmd.Stderr = os.Stdout
+	cmd.Run()
+	fmt.Printf("inputs: %v\n", rf.Inputs)
+	if rf.Confirmed {
+		return 1
+	}
 	return 0
 }
